@@ -115,6 +115,8 @@ type Strat struct {
 	// column of the strategy's Report at each snapshot position (NaN = warm-up filler, not compared).
 	// The generic columns Close / annotation / Outcome are checked without it.
 	Cols func(cfg []float64, b Bars) map[string]ref.S
+	// ColsKnown classifies a mismatching indicator column as a known finding (returns its key or "").
+	ColsKnown func(cfg []float64, column string) string
 	// CountKey classifies a wrong number of actions as a known finding (returns its key or "").
 	CountKey func(cfg []float64, n, got int) string
 	// ScaleFree: recommendations must not change when all prices or all volumes are rescaled (C18).
@@ -128,8 +130,15 @@ var Strats []*Strat
 // RegStrat appends an entry.
 func RegStrat(s *Strat) { Strats = append(Strats, s) }
 
+// RefOverride, when set for an indicator name, replaces its documented reference
+// in IndRef (used to evaluate strategy rules / report columns over a known-defect model).
+var RefOverride = map[string]func(cfg []float64, in []ref.S) []ref.S{}
+
 // IndRef evaluates the documented reference of a catalogued indicator.
 func IndRef(name string, cfg []float64, in ...ref.S) []ref.S {
+	if f := RefOverride[name]; f != nil {
+		return f(cfg, in)
+	}
 	e := FindInd(name)
 	if e == nil {
 		panic("no indicator catalogue entry " + name)
